@@ -226,7 +226,55 @@ def _tok_range(it: rsx.Item):
     return lo, j
 
 
+def build_matchexpr(spec: dict, sections: dict, log: list, twin: bool = False):
+    """kind=matchexpr: the nth `match SCRUTINEE { ARMS }` expression inside function `fn=` whose first arm starts with
+    `first=` is extracted and wrapped as `pub fn <as>(<param>) -> (r: <rtype>) <contract> { match <param name> { ARMS } }`.
+    The arms are the repository's bytes; only the scrutinee expression is replaced by the parameter."""
+    relfile = spec['file']
+    src = read_repo(relfile)
+    it = rsx.find_item(relfile, src, 'fn', spec['fn'], in_impl=spec.get('in_impl'), in_mod=spec.get('in_mod'))
+    toks = it.toks
+    first = [t.text for t in rsx.tokenize(spec['first'])]
+    hits = []
+    for j in range(it.open_tok + 1, it.close_tok):
+        if toks[j].kind == 'ident' and toks[j].text == 'match':
+            k = j + 1
+            while k < it.close_tok and toks[k].text != '{':
+                if toks[k].text in ('(', '['):
+                    k = rsx.match_close(toks, k)
+                k += 1
+            if k < it.close_tok and [t.text for t in toks[k + 1:k + 1 + len(first)]] == first:
+                hits.append((j, k, rsx.match_close(toks, k)))
+    nth = int(spec.get('nth', 0))
+    if nth >= len(hits):
+        raise LostAnchor(f"{relfile}: fn {spec['fn']}: match expression #{nth} starting with `{spec['first']}` not found ({len(hits)} found)")
+    if 'count' in spec and int(spec['count']) != len(hits):
+        raise LostAnchor(f"{relfile}: fn {spec['fn']}: expected {spec['count']} match expressions starting with `{spec['first']}`, found {len(hits)}")
+    j, k, c = hits[nth]
+    scrut = src[toks[j + 1].start:toks[k - 1].end]
+    pname = spec['param'].split(':')[0].strip()
+    arms = src[toks[k].start:toks[c].end]
+    name = spec['as'] + ('__canary' if twin else '')
+    contract = sections.get(('contract',), '')
+    if twin:
+        contract = re.sub(r'\bensures\b', 'ensures false,', contract, count=1) if re.search(r'\bensures\b', contract) else contract.rstrip() + '\n    ensures false,\n'
+    head = f"pub fn {name}({spec['param']}) -> (r: {spec['rtype']})\n{contract.rstrip()}\n{{\n    match {pname} "
+    text = head + arms + '\n}\n'
+    line0 = it.line_of(toks[j].start)
+    n_head = head.count('\n')
+    origins = [(relfile, line0)] * n_head + [(relfile, line0 + i) for i in range(arms.count('\n') + 1)] + [(relfile, it.line_of(toks[c].end))] * 2
+    applied = [f"matchexpr {relfile}:{line0}: `match {scrut} {{..}}` inside fn {spec['fn']} wrapped as fn {spec['as']}({spec['param']}) (scrutinee `{scrut}` -> `{pname}`)"]
+    if not twin:
+        log.extend(applied)
+    info = ItemInfo(ident=spec.get('id', spec['as']) + ('__canary' if twin else ''), kind='fn', file=relfile, name=spec['as'], emitted_name=name,
+                    src_line=line0, out_line=0, out_end_line=0, has_contract=bool(contract.strip()), twin_name=None, rewrites=applied, n_loops=0,
+                    in_impl=None, flags=dict(spec))
+    return text, origins, info
+
+
 def build_item(spec: dict, sections: dict, substs: list, defines: set, log: list, twin: bool = False):
+    if spec.get('kind') == 'matchexpr':
+        return build_matchexpr(spec, sections, log, twin)
     relfile = spec['file']
     try:
         src = read_repo(relfile)
@@ -873,7 +921,7 @@ def assemble(template: str, defines: set | None = None) -> Assembled:
             want_twin = tw == 'yes' or (tw not in ('yes', 'no') and tw in defines)
             cs = spec.get('canary', '')
             info.flags['canary_self'] = bool(canary and (cs == 'self' or (cs and cs in defines)))
-            if canary and spec.get('kind', 'fn') == 'fn' and want_twin and info.has_contract:
+            if canary and spec.get('kind', 'fn') in ('fn', 'matchexpr') and want_twin and info.has_contract:
                 text2, orgs2, info2 = build_item(spec, sections, substs, defines, log, twin=True)
                 s2l = len(out_lines) + 1
                 tl2 = text2.split('\n')
